@@ -8,7 +8,7 @@ from vlib import gen_values as gv
 from vlib import gen_events as ge
 from vlib import canonical_ref
 from vlib.runner import Arm, Eval, Failure
-from vlib.util import exc_key, exc_msg, have_c, strings_in
+from vlib.util import exc_key, exc_msg, have_c, strings_in, shorthand_with_flow_indicator
 
 PROPERTY = "C15"
 LEVEL = "exploration"
@@ -398,6 +398,8 @@ def known_class(arm, case, key):
             return "libyaml-drops-empty-implicit-first-document"
         if arm == "nodes" and c12._first_root_is_empty_implicit_plain("nodes", case[:2]):
             return "libyaml-drops-empty-implicit-first-document"
+        if arm == "events" and shorthand_with_flow_indicator(ge.build_events(case[0])):
+            return "libyaml-emitter-writes-flow-indicator-in-shorthand-tag"
     return None
 
 
